@@ -1,1 +1,269 @@
-/- C07 — property theorems (stub: the slice is not built yet). -/
+import GB.C07.Proofs
+import GB.Generated.Facts
+/-
+  C07 — property theorems.  The model (GB/C07/Model.lean) is grpcadapter/metadata.go,
+  ProxyForwarder.baseContext, the header→metadata conversions and the metadata→response placements
+  of the five entry points; the specification (GB/C07/Spec.lean) speaks about what the CLIENT sent
+  (`items`) and what the TARGET emitted.  Every theorem quantifies over ALL configurations (allow
+  lists, prefixes), ALL header / metadata sets and — where it says `en` — ALL five entry points.
+-/
+set_option linter.unusedSimpArgs false
+set_option linter.unusedVariables false
+open GB GB.C07
+
+/-- **Each entry point = filter ∘ conversion.** What reaches the target is the allow-list filter
+    applied to the entry point's conversion of the request (through `FromIncomingContext`), with
+    `grpc-timeout` removed — nothing bypasses the filter, for every entry point and configuration. -/
+theorem C07_all_entries (en : Entry) (o : Opts) (r : Request) :
+    targetMD en o r =
+      MD.delete (filterRequest (fromIncoming (toCtxMD en r)) o.allowReq o.prefixReq) timeoutKey :=
+  outgoing_eq o (toCtxMD en r)
+
+/-- **Request direction, at the filter.** Every entry of `FilterRequestMD`'s result is either the
+    carried `grpc-timeout` (consumed by `baseContext`, see `C07_timeout_never_forwarded`) or comes from
+    an allow-listed name: renamed, values decoded when binary, never empty. -/
+theorem C07_filter_request_only_allowed (o : Opts) (md : MD) (e : Bytes × List Bytes)
+    (h : e ∈ filterRequestMD o md) :
+    (e.1 = timeoutKey ∧ e.2 = md.get timeoutKey) ∨
+    ∃ a ∈ o.allowReq, e.1 = rename o.prefixReq a ∧
+      e.2 = decodeVals (renameRaw o.prefixReq a) (md.get a) ∧ e.2 ≠ [] := by
+  unfold filterRequestMD at h
+  simp only at h
+  split at h
+  · unfold MD.set at h
+    split at h
+    · exact Or.inr (filterRequest_entries md _ _ e h)
+    · rcases mem_put _ _ _ _ h with h1 | h1
+      · left; rw [h1, timeoutKey_lower]; exact ⟨rfl, rfl⟩
+      · exact Or.inr (filterRequest_entries md _ _ e h1)
+  · exact Or.inr (filterRequest_entries md _ _ e h)
+
+/-- **Response headers, at the filter**: only allow-listed names, under `prefix ++ name`, values untouched. -/
+theorem C07_filter_response_only_allowed (o : Opts) (md : MD) (e : Bytes × List Bytes)
+    (h : e ∈ filterResponseMD o md) :
+    ∃ a ∈ o.allowResp, e.1 = lower (o.prefixResp ++ a) ∧ e.2 = md.get a ∧ e.2 ≠ [] :=
+  filterResponse_entries md _ _ e h
+
+/-- **Trailers, at the filter**: the trailer allow-list and prefix, not the header ones. -/
+theorem C07_filter_trailer_only_allowed (o : Opts) (md : MD) (e : Bytes × List Bytes)
+    (h : e ∈ filterTrailerMD o md) :
+    ∃ a ∈ o.allowTrl, e.1 = lower (o.prefixTrl ++ a) ∧ e.2 = md.get a ∧ e.2 ≠ [] :=
+  filterResponse_entries md _ _ e h
+
+/-- **`grpc-timeout` is never forwarded as metadata** — for every configuration, including allow-lists
+    that name it (`grpc-timeout`), rename onto it (`Grpc-Metadata-Grpc-Timeout`, prefix `grpc-` +
+    `timeout`), and for every entry point. -/
+theorem C07_timeout_never_forwarded (en : Entry) (o : Opts) (r : Request) :
+    timeoutKey ∉ (targetMD en o r).keys := by
+  rw [C07_all_entries]
+  intro h
+  unfold MD.keys at h
+  obtain ⟨e, he, hk⟩ := List.mem_map.1 h
+  have := (mem_delete _ _ e he).2
+  rw [timeoutKey_lower] at this
+  exact this hk
+
+/-- **The client's `grpc-timeout` is what is consumed as the deadline**: whenever the request carries
+    one, the call's timeout is its (first) value decoded per the gRPC spec (C12), whatever the
+    allow-list renames onto the key. -/
+theorem C07_timeout_consumed (en : Entry) (o : Opts) (r : Request) (v0 : Bytes) (vs : List Bytes)
+    (h : (fromIncoming (toCtxMD en r)).get timeoutKey = v0 :: vs) :
+    targetDeadline en o r = GB.C12.decodeTimeout v0 := by
+  unfold targetDeadline deadline forwardRequest filterRequestMD
+  simp only [h, List.length_cons, Nat.zero_lt_succ, ↓reduceIte, gt_iff_lt]
+  unfold baseContext MD.set
+  simp only [List.isEmpty_cons, Bool.false_eq_true, ↓reduceIte]
+  have hg : MD.get (MD.put (filterRequest (fromIncoming (toCtxMD en r)) o.allowReq o.prefixReq) (lower timeoutKey) (v0 :: vs))
+      timeoutKey = v0 :: vs := by
+    unfold MD.get; rw [lookup_put]; simp
+  rw [hg]
+
+/-- **Request direction, end to end, against what the client sent** (all five entry points, all
+    configurations).  An entry `(k', vs)` reaches the target only if `k'` is not `grpc-timeout` and
+    some allow-listed `a` is renamed onto `k'`, and every value is one the client sent under a name
+    equal to `a` up to ASCII case — base64-decoded when the forwarded key is binary. -/
+theorem C07_target_only_allowed (en : Entry) (o : Opts) (r : Request) (e : Bytes × List Bytes)
+    (h : e ∈ targetMD en o r) :
+    e.1 ≠ timeoutKey ∧ ∃ a ∈ o.allowReq, e.1 = rename o.prefixReq a ∧
+      ∀ v ∈ e.2, ∃ p ∈ items en r, lower p.1 = lower a ∧
+        (if hasBinSuffix (renameRaw o.prefixReq a) then decodeBinHeader p.2 = some v else p.2 = v) := by
+  rw [C07_all_entries] at h
+  obtain ⟨hm, hk⟩ := mem_delete _ _ e h
+  rw [timeoutKey_lower] at hk
+  refine ⟨hk, ?_⟩
+  obtain ⟨a, ha, h1, h2, _⟩ := filterRequest_entries _ _ _ e hm
+  refine ⟨a, ha, h1, ?_⟩
+  intro v hv
+  rw [h2] at hv
+  unfold decodeVals at hv
+  have hsrc := toCtxMD_src en r
+  split at hv
+  · rename_i hb
+    obtain ⟨w, hw, hd⟩ := List.mem_filterMap.1 hv
+    obtain ⟨p, hp, hpk, hpv⟩ := esrc_lookup _ _ hsrc _ w hw
+    exact ⟨p, hp, hpk, by rw [if_pos hb, hpv]; exact hd⟩
+  · rename_i hb
+    obtain ⟨p, hp, hpk, hpv⟩ := esrc_lookup _ _ hsrc _ v hv
+    exact ⟨p, hp, hpk, by rw [if_neg hb]; exact hpv⟩
+
+/-- The same as the executable criterion the driver applies to the REAL target's metadata
+    (`VIOL` iff it is false): on the four web entry points the model always meets it. -/
+theorem C07_reqSpec_web (en : Entry) (o : Opts) (r : Request) (hw : en.wire = true) :
+    reqSpec true o (items en r) (targetMD en o r) = true := by
+  unfold reqSpec
+  rw [List.all_eq_true]
+  intro e he
+  obtain ⟨hk, a, ha, h1, h2⟩ := C07_target_only_allowed en o r e he
+  simp only [Bool.and_eq_true, bne_iff_ne, ne_eq]
+  refine ⟨hk, ?_⟩
+  unfold entryOK
+  rw [List.any_eq_true]
+  refine ⟨a, ha, ?_⟩
+  simp only [Bool.and_eq_true, beq_iff_eq, List.all_eq_true, List.any_eq_true]
+  refine ⟨h1.symm, ?_⟩
+  intro v hv
+  obtain ⟨p, hp, hpk, hpv⟩ := h2 v hv
+  refine ⟨p, hp, hpk, ?_⟩
+  unfold admissible
+  split at hpv
+  · rename_i hb; simp [hb, hpv]
+  · rename_i hb; simp [hb, hpv]
+
+/- FULL STATEMENT wanted for the gRPC proxy entry (values arrive from grpc-go ALREADY binary, so
+   the admissible form is the value itself):
+     ∀ o r, reqSpec false o (items .proxy r) (targetMD .proxy o r) = true
+   It is FALSE for the code as it is (D13, `C07_proxy_bin_fails`): `filterRequest` base64-decodes
+   `-bin` values a second time.  What does hold: -/
+
+/-- gRPC proxy entry, partial: licensed exactly, provided no allow-listed name is forwarded under a
+    binary (`-bin`) key.  (The "only if allow-listed" half — `C07_target_only_allowed` — holds on
+    the proxy without this proviso.) -/
+theorem C07_proxy_partial (o : Opts) (r : Request)
+    (hnb : ∀ a ∈ o.allowReq, hasBinSuffix (renameRaw o.prefixReq a) = false) :
+    reqSpec false o (items .proxy r) (targetMD .proxy o r) = true := by
+  unfold reqSpec
+  rw [List.all_eq_true]
+  intro e he
+  obtain ⟨hk, a, ha, h1, h2⟩ := C07_target_only_allowed .proxy o r e he
+  simp only [Bool.and_eq_true, bne_iff_ne, ne_eq]
+  refine ⟨hk, ?_⟩
+  unfold entryOK
+  rw [List.any_eq_true]
+  refine ⟨a, ha, ?_⟩
+  simp only [Bool.and_eq_true, beq_iff_eq, List.all_eq_true, List.any_eq_true]
+  refine ⟨h1.symm, ?_⟩
+  intro v hv
+  obtain ⟨p, hp, hpk, hpv⟩ := h2 v hv
+  refine ⟨p, hp, hpk, ?_⟩
+  unfold admissible
+  rw [hnb a ha] at hpv
+  simp at hpv
+  simp [hpv]
+
+/-- D13, kernel-checked negative witness: allow-list `x-bin`; a gRPC client sends the 4 bytes `QUJD`
+    as binary metadata `x-bin`; grpc-go hands the proxy those 4 bytes; the target receives the
+    3 bytes `ABC` — not what the client sent. -/
+theorem C07_proxy_bin_fails :
+    let o : Opts := { allowReq := [[120,45,98,105,110]] }
+    let r : Request := { hdr := [([120,45,98,105,110], [[81,85,74,68]])] }
+    targetMD .proxy o r = [([120,45,98,105,110], [[65,66,67]])] ∧
+    reqSpec false o (items .proxy r) (targetMD .proxy o r) = false := by
+  decide
+
+/-- **Default options forward nothing, in either direction, on every entry point.** -/
+theorem C07_default_deny (en : Entry) (o : Opts) (r : Request) (unary : Bool) (hdr trl : MD)
+    (h1 : o.allowReq = []) (h2 : o.allowResp = []) (h3 : o.allowTrl = []) :
+    targetMD en o r = [] ∧ clientVisible en o unary hdr trl = ([], []) := by
+  constructor
+  · rw [C07_all_entries, h1]; simp [filterRequest, MD.delete]
+  · unfold clientVisible filterResponseMD filterTrailerMD
+    rw [h2, h3]
+    cases en <;> cases unary <;> simp [filterResponse, appendHeaders, appendTrailers]
+
+/-- **Response direction, end to end** (all five entry points): every header value the client can
+    observe that stems from target metadata is licensed by the response allow-list against the
+    target's headers or (unary HTTP: trailers are sent as headers) by the trailer allow-list against
+    the target's trailers; every trailer value by the trailer allow-list.  Names compare up to ASCII
+    case (HTTP canonicalises them). -/
+theorem C07_client_only_allowed (en : Entry) (o : Opts) (unary : Bool) (hdr trl : MD) :
+    (∀ e ∈ (clientVisible en o unary hdr trl).1, ∀ v ∈ e.2,
+        (∃ a ∈ o.allowResp, lower e.1 = lower (o.prefixResp ++ a) ∧ v ∈ hdr.get a) ∨
+        (∃ a ∈ o.allowTrl, lower e.1 = lower (o.prefixTrl ++ a) ∧ v ∈ trl.get a)) ∧
+    (∀ e ∈ (clientVisible en o unary hdr trl).2, ∀ v ∈ e.2,
+        ∃ a ∈ o.allowTrl, lower e.1 = lower (o.prefixTrl ++ a) ∧ v ∈ trl.get a) := by
+  let SH : Bytes → Bytes → Prop := fun K v =>
+    (∃ a ∈ o.allowResp, lower K = lower (o.prefixResp ++ a) ∧ v ∈ hdr.get a) ∨
+    (∃ a ∈ o.allowTrl, lower K = lower (o.prefixTrl ++ a) ∧ v ∈ trl.get a)
+  let ST : Bytes → Bytes → Prop := fun K v =>
+    ∃ a ∈ o.allowTrl, lower K = lower (o.prefixTrl ++ a) ∧ v ∈ trl.get a
+  have fh : ∀ e ∈ filterResponseMD o hdr, ∀ v ∈ e.2, ∀ K, lower K = lower e.1 → SH K v := by
+    intro e he v hv K hK
+    obtain ⟨a, ha, h1, h2, _⟩ := C07_filter_response_only_allowed o hdr e he
+    exact Or.inl ⟨a, ha, by rw [hK, h1, lower_lower], by rw [← h2]; exact hv⟩
+  have ft : ∀ e ∈ filterTrailerMD o trl, ∀ v ∈ e.2, ∀ K, lower K = lower e.1 → ST K v := by
+    intro e he v hv K hK
+    obtain ⟨a, ha, h1, h2, _⟩ := C07_filter_trailer_only_allowed o trl e he
+    exact ⟨a, ha, by rw [hK, h1, lower_lower], by rw [← h2]; exact hv⟩
+  have eH : ESrc (filterResponseMD o hdr) SH := fun e he v hv => fh e he v hv e.1 rfl
+  have eT : ESrc (filterTrailerMD o trl) ST := fun e he v hv => ft e he v hv e.1 rfl
+  have aH : ESrc (appendHeaders [] (filterResponseMD o hdr)) SH :=
+    appendHeaders_src _ _ SH (esrc_nil _) (fun e he v hv => fh e he v hv _ (lower_canonKey e.1))
+  have aT : ESrc (appendHeaders [] (filterTrailerMD o trl)) ST :=
+    appendHeaders_src _ _ ST (esrc_nil _) (fun e he v hv => ft e he v hv _ (lower_canonKey e.1))
+  have aHT : ESrc (appendHeaders (appendHeaders [] (filterResponseMD o hdr)) (filterTrailerMD o trl)) SH :=
+    appendHeaders_src _ _ SH aH (fun e he v hv => Or.inr (ft e he v hv _ (lower_canonKey e.1)))
+  unfold clientVisible
+  cases en <;> cases unary <;> simp only [appendTrailers]
+  all_goals first
+    | exact ⟨fun e he v hv => aHT e he v hv, fun e he => by simp at he⟩
+    | exact ⟨fun e he v hv => aH e he v hv, fun e he v hv => aT e he v hv⟩
+    | exact ⟨fun e he v hv => aH e he v hv, fun e he v hv => eT e he v hv⟩
+    | exact ⟨fun e he v hv => eH e he v hv, fun e he v hv => eT e he v hv⟩
+    | exact ⟨fun e he => by simp at he, fun e he => by simp at he⟩
+
+/-- Nothing at all is observable on the plain WebSocket entry (no headers after the upgrade, no trailers). -/
+theorem C07_websocket_nothing (o : Opts) (unary : Bool) (hdr trl : MD) :
+    clientVisible .ws o unary hdr trl = ([], []) := rfl
+
+/-- The hypotheses above are satisfiable and the renaming / decoding behaves as documented
+    (gateway prefix stripped case-insensitively; padded and unpadded base64; undecodable value
+    dropped silently; a name that is not listed is not forwarded even if its stripped form is). -/
+theorem C07_examples :
+    filterRequestMD { allowReq := [ascii "Grpc-Metadata-Data-Bin", ascii "x-a"], prefixReq := ascii "p-" }
+        [(ascii "grpc-metadata-data-bin", [ascii "QUJD", ascii "QUI", ascii "!!"]), (ascii "x-a", [ascii "1"]),
+         (ascii "data-bin", [ascii "QQ"]), (ascii "x-internal", [ascii "s"])]
+      = [(ascii "data-bin", [ascii "ABC", ascii "AB"]), (ascii "p-x-a", [ascii "1"])]
+    ∧ targetMD .http { allowReq := [ascii "grpc-metadata-grpc-timeout", ascii "grpc-timeout", ascii "timeout"], prefixReq := ascii "grpc-" }
+        { hdr := [(ascii "Grpc-Metadata-Grpc-Timeout", [ascii "1n"]), (ascii "Timeout", [ascii "2n"])] } = []
+    ∧ targetDeadline .http { allowReq := [ascii "timeout"], prefixReq := ascii "grpc-" }
+        { hdr := [(ascii "Grpc-Timeout", [ascii "10S"]), (ascii "Timeout", [ascii "2n"])] } = some 10000000000
+    ∧ targetMD .grpcws { allowReq := [ascii "x-a"] } { lines := [(ascii "X-a", ascii "1"), (ascii "x-A", ascii "2"), (ascii "x-b", ascii "3")] }
+      = [(ascii "x-a", [ascii "1", ascii "2"])] := by
+  decide
+
+/-! Facts ties (regenerated from the sources on every run). -/
+
+theorem C07_facts_constants :
+    GB.Generated.c07GatewayPrefix = gwPrefix.map UInt8.toNat
+    ∧ GB.Generated.c07TimeoutKey = timeoutKey.map UInt8.toNat
+    ∧ GB.Generated.c07BinSuffix = binSuffix.map UInt8.toNat := by
+  decide
+
+/-- The only places that attach outgoing metadata are `baseContext` (and `AdaptedClientConn.Stream`,
+    which copies the MD it was given onto the stream context); the request filter is applied in
+    `Forward` only, the response/trailer filters in the two response pumps only, and `SetHeader` /
+    `SetTrailer` are called from those pumps (and the proxy's adapter methods) only. -/
+theorem C07_facts_call_sites :
+    GB.Generated.c07OutgoingContextSites =
+      ["grpcadapter/conn.go:Stream", "grpcadapter/forwarder.go:baseContext", "grpcadapter/forwarder.go:baseContext"]
+    ∧ GB.Generated.c07AppendOutgoingSites = []
+    ∧ GB.Generated.c07FilterRequestSites = ["grpcadapter/forwarder.go:Forward"]
+    ∧ GB.Generated.c07FilterResponseSites =
+      ["grpcadapter/forwarder.go:forwardOutgoingToIncoming", "grpcadapter/forwarder.go:forwardUnaryResponse"]
+    ∧ GB.Generated.c07FilterTrailerSites =
+      ["grpcadapter/forwarder.go:forwardOutgoingToIncoming", "grpcadapter/forwarder.go:forwardUnaryResponse"]
+    ∧ GB.Generated.c07SetHeaderSites =
+      ["grpcadapter/forwarder.go:forwardOutgoingToIncoming", "grpcadapter/forwarder.go:forwardUnaryResponse", "proxy.go:SetHeader"]
+    ∧ GB.Generated.c07SetTrailerSites =
+      ["grpcadapter/forwarder.go:forwardOutgoingToIncoming", "grpcadapter/forwarder.go:forwardUnaryResponse", "proxy.go:SetTrailer"] := by
+  decide
